@@ -96,17 +96,17 @@ theorem branded_invariant :
 theorem not_send_not_sync :
     ∀ n ∈ requiredNotSendSync ++ table.branded, table.notSendSync n = true := by decide
 
-/-- The builders hand a caller-supplied value of their type parameter to the arena, and the safe
-finishing methods (`write`, `write_header`, `write_slice_with`, `copy_slice`) carry no `Collect`
-bound of their own — the bound is checked when the builder is created.  They must therefore be
-invariant in their value type parameters: a covariant `GcBuilder<'gc, &'static U>` coerces to
-`GcBuilder<'gc, &'gc U>`, and a `&'gc U` ends up stored in the arena, outliving its callback
-(defect D4 of the pinned tree; fixed by the `*mut T` marker). -/
+/-- **Builder rule** (defect D4 of the pinned tree, fixed by the `*mut T` marker).  The rows are not
+hand-written: `table.builderRows` derives them from the regenerated table – every (public type, type
+parameter `P`) such that the type holds a `P` only behind a raw pointer / `NonNull` / `MaybeUninit`
+and never by value (so rustc infers covariance from the pointer unless a marker says otherwise,
+`Brand.holdsTy` follows nested types), **and** some safe method accepts a value of `P` (by value,
+by reference, as the result of a callback or the item of an iterator) without a `Collect` /
+`'static` bound on `P` at that method (the bound having been checked when the value was created).
+Every such type must be invariant in `P`: a covariant `GcBuilder<'gc, &'static U>` coerces to
+`GcBuilder<'gc, &'gc U>`, and `write` stores an untraced `&'gc U` in the arena. -/
 theorem builders_invariant_in_value_type :
-    ∀ nt ∈ [("GcBuilder", "T"), ("GcSliceBuilder", "E"), ("GcSliceWithHeaderBuilder", "H"),
-            ("GcSliceWithHeaderBuilder", "E"), ("GcSliceWithHeaderSliceBuilder", "H"),
-            ("GcSliceWithHeaderSliceBuilder", "E")],
-      table.variance nt.1 (.ty nt.2) = .inv := by decide
+    ∀ r ∈ table.builderRows, table.builderOk r = true := by decide
 
 /-- The crate contains no explicit (positive) `impl Send` / `impl Sync` at all. -/
 theorem no_explicit_auto_impls : table.violAutoImpls = [] := by decide
@@ -282,6 +282,42 @@ example : Callback.ok
 `RefCell`, `Static`). -/
 example : ((table.collectImpls.filter (·.mustBeStatic)).map (·.selfTy.head)) =
     ["&", "Cell", "RefCell", "Static"] := by decide
+
+/-- The derived rows are there, `GcBuilder<T>` (the D4 case) among them, together with the slice
+builders that contain one. -/
+example : 4 ≤ table.builderRows.length ∧ table.builderRows.contains ("GcBuilder", "T") = true := by
+  decide
+
+/-- D4 witness: with the pre-fix marker `PhantomData<(Invariant<'gc>, M, P)>` (no `*mut T`) the row
+`GcBuilder<T>` is still derived – nothing about holding or storing changed – and is rejected, as
+are the slice builders built on it. -/
+example :
+    let pre : Table := { table with adts := table.adts.map (fun d =>
+      if d.name == "GcBuilder" then
+        { d with fields := d.fields.map (fun f =>
+            if f.name == "_marker" then
+              { f with ty := .std .phantomData [.tuple
+                  [.std .phantomData [.std .cell [.ref (.named "gc") (.tuple [])]],
+                   .param "M", .param "P"]] }
+            else f) }
+      else d) }
+    pre.builderRows.contains ("GcBuilder", "T") = true ∧
+    pre.builderOk ("GcBuilder", "T") = false ∧
+    pre.variance "GcBuilder" (.ty "T") = .co ∧
+    2 ≤ pre.violBuilders.length := by decide
+
+/-- The rule is about the combination: a type that *owns* its parameter by value (`Static<T>`,
+`Write<T>`) yields no row however it is written to, and a hypothetical covariant
+`Slot<T> { p: *mut T }` with an unbounded safe `put(&mut self, v: T)` is a row and is rejected. -/
+example :
+    table.builderRows.all (fun r => r.1 != "Static" && r.1 != "Write") = true ∧
+    (let tbl : Table := { table with
+        adts := { name := "Slot", file := "x.rs", vis := .pub, kind := "struct", lts := [], tys := ["T"],
+                  fields := [{ name := "p", ty := .std .nonNull [.param "T"] }] } :: table.adts,
+        methods := { adt := "Slot", file := "x.rs", method := "put", selfArgs := [.param "T"],
+                     params := [.param "T"], bounded := [] } :: table.methods }
+     tbl.builderRows.contains ("Slot", "T") = true ∧ tbl.builderOk ("Slot", "T") = false) := by
+  decide
 
 /-- Re-branding sites that need a cover exist, all are covered, and the identity check is really
 applied somewhere (at a site or at the call of a helper); independent of function names. -/
